@@ -4,7 +4,7 @@ import (
 	"go/types"
 	"sort"
 
-	"golang.org/x/tools/go/ssa"
+	"ikeverif/checker/xt/ssa"
 )
 
 // Callees of one call site.
